@@ -31,6 +31,8 @@ def run(prog, chk):
     ]
     chk.decided += ["scripts are folded into Common exactly when a glyph has a neutral script, Zyyy or Zinh (R05.11)"]
     chk.decided += ["every kerning class is defined under the unique name makeFeaClassName computed for it, unchanged (R05.10)"]
+    chk.decided += ["the pair list handed to the lookup builders is the collected list itself: between the collection (UFO pairs with unknown glyphs / groups removed) and the base / mark and script "
+                    "splits no pair is filtered out or rewritten - an exception that 'restates' a class value still shields the pair from a more general exception (R05.12)"]
     chk.not_decided += ["what a shaper applies", "that common and script lookups never both hold the same glyph pair", "script / bidi classification of glyphs", "the kerning values themselves"]
     chk.guard(r051, prog, chk)
     chk.guard(r052, prog, chk)
@@ -44,6 +46,7 @@ def run(prog, chk):
     chk.guard(r202, prog, chk, "R05.9")
     chk.guard(r0510, prog, chk)
     chk.guard(r0511, prog, chk)
+    chk.guard(r0512, prog, chk)
 
 
 # ----------------------------------------------------------------------------- R05.1
@@ -684,7 +687,50 @@ def r0511(prog, chk):
     chk.minimum("R05.11", 2)
 
 
+# ----------------------------------------------------------------------------- R05.12
+PAIR_COLLECTORS = ("getKerningPairs", "getVariableKerningPairs", "get_kerning_pairs", "get_variable_kerning_pairs")
+
+
+def r0512(prog, chk):
+    ix = prog.ix
+    sites = []
+    g1 = ix.get_method(f"{KERN1}.KernFeatureWriter", "getKerningData", own=True)
+    for c in A.body_nodes(g1.node):
+        if isinstance(c, ast.Call) and A.callee_name(c) == "SimpleNamespace":
+            v = A.kwarg(c, "pairs")
+            if v is not None:
+                sites.append((g1, c, v, "pairs= of the kerning data"))
+    g2 = ix.get_func(f"{KERN2}:extract_kerning_data")
+    for c in A.body_nodes(g2.node):
+        if isinstance(c, ast.Call) and A.callee_name(c) == "split_base_and_mark_pairs" and c.args:
+            sites.append((g2, c, c.args[0], "pairs split into base / mark"))
+    for s_ in A.stmts_of(g2.node):
+        if isinstance(s_, ast.Assign) and len(s_.targets) == 1 and isinstance(s_.targets[0], ast.Name) and isinstance(s_.value, ast.Name) \
+                and any(isinstance(c, ast.Call) and A.callee_name(c) == "split_kerning" and any(isinstance(a, ast.Name) and a.id == s_.targets[0].id for a in c.args) for c in A.body_nodes(g2.node)):
+            sites.append((g2, s_, s_.value, "pairs used unsplit (no mark filtering)"))
+    need(len(sites) >= 3, f"R05.12: hand-over sites of the collected pairs: {len(sites)}")
+
+    def collected(x, ff):
+        while isinstance(x, ast.Call) and isinstance(x.func, ast.Name) and x.func.id in ("sorted", "list", "tuple") and len(x.args) >= 1:
+            x = x.args[0]  # order / container only
+            if isinstance(x, ast.Name):
+                okx, _ = every_origin(prog, ff, x, collected, allow_const=False)
+                return okx
+        return isinstance(x, ast.Call) and A.callee_name(x) in PAIR_COLLECTORS
+    for f, node, v, what in sites:
+        ok, bad = every_origin(prog, f, v, collected, allow_const=False)
+        chk.ob("R05.12", f"{f.short}|{what}: the collected pair list, unfiltered", ok, where(f, node), detail=T(v, 60),
+               message=f"{f.short}: the kerning pairs pass through {bad} between collection and lookup building: pairs are dropped or rewritten after the UFO "
+                       f"precedence was already flattened into the list (a glyph-level exception that equals the class value still overrides a glyph-to-class exception; "
+                       f"without it the pair gets the wrong value)")
+    chk.minimum("R05.12", 3)
+
+
 MUTANTS = [
+    M("'redundant' exceptions dropped after collection (seeded C05j)", "ufo2ft/featureWriters/kernFeatureWriter.py", "KernFeatureWriter.getKerningData",
+      "pairs = self.getKerningPairs(side1Groups, side2Groups)", "pairs = self.getKerningPairs(side1Groups, side2Groups)\npairs = [p for p in pairs if p.value != 0 or not (p.firstIsClass and p.secondIsClass)] if not self.context.isVariable else pairs", rule="R05.12"),
+    M("collected pairs sorted before they are handed on", "ufo2ft/featureWriters/kernFeatureWriter.py", "KernFeatureWriter.getKerningData",
+      "pairs = self.getKerningPairs(side1Groups, side2Groups)", "pairs = sorted(self.getKerningPairs(side1Groups, side2Groups))", kind="equiv"),
     M("Inherited-only glyphs are not folded into Common (seeded C05h)", "ufo2ft/featureWriters/kernFeatureWriter.py", "partitionByScript",
       "scripts & DFLT_SCRIPTS", "scripts & COMMON_SCRIPTS_SET", rule="R05.11", count=2),
     M("class names truncated after the uniqueness check (seeded C05g)", "ufo2ft/featureWriters/ast.py", "makeGlyphClassDefinition",
